@@ -181,7 +181,17 @@ const TIMEOUT_MSG: &str = "Query timed out after 1000 milliseconds.";
 pub fn emit(out: &mut Out, cfg: &Cfg, c: &Case) {
     if !out.begin() { return; }
     let id = out.case(&enc_case(c));
-    let recs = run_impl(c, &mut out.cap, false);
+    let t0 = std::time::Instant::now();
+    let mut recs = run_impl(c, &mut out.cap, false);
+    // a REAL timeout (no tick was armed for the operation) in a run that took most of a second of wall-clock time: the process
+    // was not given the processor (16 cores shared with other builds); the properties allow a search that really exceeds the
+    // limit to be cut short, so such a run says nothing — it is taken once more (DESIGN 7)
+    let real_timeout = c.ops.iter().enumerate().any(|(i, op)| matches!(op, Op::Run{fire: 0, ..})
+        && recs.get(i).map(|r| r.contains(&hex(TIMEOUT_MSG))).unwrap_or(false));
+    if real_timeout && t0.elapsed().as_millis() >= 900 {
+        out.stat("rerun_after_real_timeout_under_load", 1);
+        recs = run_impl(c, &mut out.cap, false);
+    }
     out.impl_line(id, &recs.join(" ; "));
     let cyclic = recs.iter().any(|r| r.contains("CYCLIC") || r == "P");
     // ---- C22: every op gives what it gives when the process state is fresh
